@@ -134,7 +134,7 @@ func c05Profiles() []*lib.ProfileDoc {
 // C05: two documents denoting the same graph get the same conforms flag and the same result set.
 func c05(tier string) {
 	ctx := lib.NewCtx("C05", tier)
-	ctx.Rule = "random graphs (3-8 nodes, literals of three kinds, multi-valued properties, references incl. cycles and shared children) rendered once canonically (flat, expanded IRIs, arrays, value objects) and in random variants composing: prefix / @vocab / term-definition compaction, context arrays, @base-relative ids, embedding to depth<=5 (a node embedded once and referenced elsewhere), a node object split in two objects with the same @id, the plain context-free flat shape AMF emits, @graph wrapper with/without context, node order, key order, single value vs array, order of the values of a property (never for properties printed by a message placeholder), @type string vs array, native literals vs value objects, repeated values, repeated node objects, whitespace; each variant is first verified by json-gold (run by the harness) to flatten to the same graph, then validated against 5 profiles (23 validations: all constraint families, inverse/alternative/sequence paths, nested/atLeast/atMost, logic, placeholders); " +
+	ctx.Rule = "random graphs (3-8 nodes, literals of three kinds, multi-valued properties, references incl. cycles and shared children) rendered once canonically (flat, expanded IRIs, arrays, value objects) and in random variants composing: prefix / @vocab / term-definition compaction, context arrays, @base-relative ids, embedding to depth<=5 (a node embedded once and referenced elsewhere), a node object split in two objects with the same @id, edges written through @reverse on the object's side, the plain context-free flat shape AMF emits, @graph wrapper with/without context, node order, key order, single value vs array, order of the values of a property (never for properties printed by a message placeholder), @type string vs array, native literals vs value objects, repeated values, repeated node objects, whitespace; each variant is first verified by json-gold (run by the harness) to flatten to the same graph, then validated against 5 profiles (23 validations: all constraint families, inverse/alternative/sequence paths, nested/atLeast/atMost, logic, placeholders); " +
 		"non-trivial & distinct = (graph, variant) whose report has at least one result"
 	ctx.Assumptions = []string{"every node has an explicit IRI @id; value order is permuted only for properties no message placeholder prints; numbers are not re-spelled; no typed or language-tagged literals",
 		"json-gold v0.4.0, run independently, decides that a variant denotes the same graph (variants failing that self-check are dropped and counted)"}
@@ -143,7 +143,7 @@ func c05(tier string) {
 	if !ctx.IsShard() {
 		ctx.RunShards()
 		ctx.MinDistinct = 100
-		for _, t := range []string{"prefix-compaction", "@vocab", "term-definitions", "@base-relative-ids", "embedding", "@graph-wrapper", "node-order", "key-order", "single-value-not-array", "@type-as-string", "repeated-value", "repeated-node-object", "whitespace", "context-array", "native-literals", "@graph-single-object", "root-node-object", "split-node-object", "plain-flat-context-free", "value-order"} {
+		for _, t := range []string{"prefix-compaction", "@vocab", "term-definitions", "@base-relative-ids", "embedding", "@graph-wrapper", "node-order", "key-order", "single-value-not-array", "@type-as-string", "repeated-value", "repeated-node-object", "whitespace", "context-array", "native-literals", "@graph-single-object", "root-node-object", "split-node-object", "plain-flat-context-free", "value-order", "@reverse-property"} {
 			if ctx.Counter("transformation:"+t) == 0 {
 				ctx.Inconclusive("transformation never applied: " + t)
 			}
